@@ -30,14 +30,16 @@ def read_layers(run):
     ents = [ent(["d"], "dir"), ent(["d", "f1"], "reg", file=1, size=s1), ent(["f2"], "reg", file=2, size=s2, style="dot"),
             ent(["f3"], "reg", file=3, size=0)]
     big = 1 << 20
-    grid = [("own", ch, 0, "gzip", [], "mem", "node"),                 # every chunk its own stream (default build)
-            ("prio", ch, big, "gzip", ["f2"], "dir", "node"),          # min-chunk-size: {f2} | {landmark, f1 chunks}
-            ("zall", 2 if ch == 3 else 3, big, "zstd", ["d/f1"], "mem", "reader")]   # zstd:chunked, {f1 chunks} | {landmark, f2}
+    grid = [("own", ch, 0, "exttoc", [], "mem", "node", 2),            # every chunk its own stream, 2 build workers, external TOC
+            ("prio", ch, big, "gzip", ["f2"], "dir", "node", 1),       # min-chunk-size: {f2} | {landmark, f1 chunks}
+            ("zall", 2 if ch == 3 else 3, big, "zstd", ["d/f1"], "mem", "reader", 1)]   # zstd:chunked, {f1 chunks} | {landmark, f2}
     if thorough:
-        grid += [("all", ch, big, "gzip", [], "mem", "reader"),        # one stream: landmark + everything
-                 ("mid", 2, 70, "gzip", [], "dir", "node"),            # streams closed by compressed size
-                 ("zown", ch, 0, "zstd", ["f2", "d/f1"], "dir", "reader")]
-    return [dict(name=n, entries=ents, chunk=c, minchunk=m, comp=comp, prio=p, cache=ck, via=via) for n, c, m, comp, p, ck, via in grid]
+        grid += [("all", ch, big, "gzip", [], "mem", "reader", 1),     # one stream: landmark + everything
+                 ("mid", 2, 70, "gzip", [], "dir", "node", 1),         # streams closed by compressed size
+                 ("zown", ch, 0, "zstd", ["f2", "d/f1"], "dir", "reader", 4),   # 4 build workers
+                 ("gown", ch, 0, "gzip", [], "mem", "reader", 1)]      # plain gzip default build
+    return [dict(name=n, entries=ents, chunk=c, minchunk=m, comp=comp, prio=p, cache=ck, via=via, workers=w)
+            for n, c, m, comp, p, ck, via, w in grid]
 
 
 def meta_layers(run):
@@ -48,6 +50,7 @@ def meta_layers(run):
           ent(["a", "s"], "symlink", target="../x/y" + "z" * (k % 3), mode=0o777),
           ent(["h"], "hardlink", link=["a", "f"], linkstyle="slash"),
           ent(["c"], "char", major=1, minor=4 + k, mode=0o620),
+          ent(["bd"], "block", major=259, minor=4000, mode=0o660, gid=6),
           ent(["p", "q", "g"], "reg", file=2, size=2, mode=0o600, uid=1000, gid=1000 + k, style="slash")]
     s2 = [ent(["x"], "reg", file=1, size=2),
           ent(["x"], "reg", file=2, size=4, mode=0o755, mtime=2000 + k),
@@ -57,6 +60,11 @@ def meta_layers(run):
           ent(["l1"], "hardlink", link=["x"]),
           ent(["l2"], "hardlink", link=["l1"], linkstyle="dot"),
           ent(["b"], "block", major=8, minor=1, mode=0o660, gid=6),
+          # device numbers around the 8 bit / 12 bit boundaries of the rdev encoding
+          ent(["c255"], "char", major=1, minor=255, mode=0o600),
+          ent(["b256"], "block", major=255, minor=256, mode=0o600),
+          ent(["c300"], "char", major=[7, 259, 226][k % 3], minor=300, mode=0o666),
+          ent(["bmax"], "block", major=4095, minor=1048575, mode=0o640),
           ent(["ff"], "fifo", mode=0o644, uid=k)]
     s3 = [ent(["e"], "reg", file=1, size=0, mode=0o2755),
           ent(["u", "v"], "dir", mode=0o2775, gid=50, style="slash"),
@@ -64,12 +72,14 @@ def meta_layers(run):
           ent(["u", "r"], "reg", file=2, size=5, mode=0o444, xattrs=[["user.k", ""]]),
           ent(["u", "v", "k1"], "hardlink", link=["u", "r"]),
           ent(["u", "k2"], "hardlink", link=["u", "v", "k1"], style="dot"),
-          ent(["n"], "char", major=0, minor=0, mode=0o000)]
+          ent(["n"], "char", major=0, minor=0, mode=0o000),
+          ent(["u", "dri"], "char", major=226, minor=1152, mode=0o660, gid=44),
+          ent(["u", "v", "nvme"], "block", major=259, minor=4000 + k, mode=0o660)]
     big = 1 << 20
     res = [dict(name="m1", entries=s1, chunk=2, minchunk=0, comp="gzip", prio=[], cache="mem", via="node"),
            dict(name="m2", entries=s2, chunk=3, minchunk=big, comp="zstd", prio=["d/y"], cache="mem", via="node")]
     if run.tier == "thorough":
-        res.append(dict(name="m3", entries=s3, chunk=2, minchunk=big, comp="gzip", prio=["u/r", "e"], cache="dir", via="node"))
+        res.append(dict(name="m3", entries=s3, chunk=2, minchunk=0, comp="exttoc", prio=["u/r", "e"], cache="dir", via="node", workers=3))
     return res
 
 
@@ -161,6 +171,7 @@ def check(run):
                         "chunk-cache evictions are imposed by a wrapper around the real memory / directory cache (C11 covers the cache itself)",
                         "files <= 9 bytes in <= 4 chunks of 2-3 bytes, <= 3 regular files + landmark; tars without a root entry './' (C05/C15 finding)",
                         "free-running traces are decided by the monitor only (each result judged on its own)",
+                        "device numbers within the 32 bit rdev of FUSE (major <= 4095, minor <= 1048575)",
                         "FUSE kernel mount and passthrough mode not exercised; node methods are called directly as the repository's suite does"]
     orig_prep = run._prep
     current = {}
@@ -185,7 +196,7 @@ def check(run):
     # ------------------------------------------------------------------ M + generation (ReadPath)
     jobs = []
     exhaustive = True
-    lens_gen = ["{1, 4, 9}", "{1, 4, 9}", "{2, 9}"] if not thorough else ["{1, 2, 3, 5, 10}"] * len(layers)
+    lens_gen = ["{1, 4, 9}", "{1, 4, 9}", "{2, 9}"] if not thorough else ["{1, 2, 3, 5, 10}"] * 6 + ["{1, 4, 9}"]
     for i, l in enumerate(layers):
         lay = layouts[l["name"]]
         current["ReadPathMC.tla"] = mc_module(lay)
@@ -213,7 +224,8 @@ def check(run):
                 ov = {k: "FALSE"}
                 run.tlc_negctl("TarMetaMC", "TarMeta_mc.cfg", ov, ["MetaEqualsTarStep"], drop=("TarOK",))
         if i == 1:
-            run.tlc_negctl("TarMetaMC", "TarMeta_mc.cfg", {"LastWins": "FALSE"}, ["MetaEqualsTarStep"], drop=("TarOK",))
+            for k in ("LastWins", "MkdevSplit"):        # the tar with duplicate names and large device numbers
+                run.tlc_negctl("TarMetaMC", "TarMeta_mc.cfg", {k: "FALSE"}, ["MetaEqualsTarStep"], drop=("TarOK",))
         inits, edges = run.tlc_edges("TarMetaMC", "TarMeta_gen.cfg", timeout=1500)
         walks, st = edge_cover(inits, edges, maxlen=25, rng=run.rng, extra_walks=20 if thorough else 4)
         log("[walks] %s: %s" % (l["name"], st))
